@@ -263,7 +263,14 @@ impl Tracer for Rec {
         }
     }
     fn event_internal_send(&self, e: &Event) {
-        self.p(vec![json!("IS"), json!(e.name)]);
+        // payload of the event as text: "n=v;n2=v2" for parameters, "=v" for content
+        let mut payload = String::new();
+        if let Some(ps) = &e.param_values {
+            payload = ps.iter().map(|p| format!("{}={}", p.name, p.value)).collect::<Vec<_>>().join(";");
+        } else if let Some(c) = &e.content {
+            payload = format!("={}", c);
+        }
+        self.p(vec![json!("IS"), json!(e.name), json!(payload)]);
     }
     fn event_internal_received(&self, e: &Event) {
         self.p(vec![json!("IR"), event_to_json(e)]);
